@@ -86,7 +86,9 @@ def run(prog):
                     res.inst(key, where="%s:%s" % (f.file, f.line_of(*over[0])), how="reviewed: " + OVERWRITTEN_BY_DESIGN[key], ok=True)
                     res.oblige(True)
                     break
-                ok = not over
+                # a variable without a definition before the loop is a per-iteration `let` (`let send = if a { f() } else { true };`):
+                # nothing carries over from one iteration to the next, so nothing can be lost
+                ok = not (over and declared_outside)
                 res.fn(f)
                 res.inst(key, where="%s:%s" % (f.file, f.line_of(*(acc or over)[0])), accumulating=len(acc), overwriting=len(over), ok=ok)
                 res.oblige(ok)
